@@ -18,6 +18,23 @@ class Owner:
         self.kind = kind  # 'data' | 'table'
 
 
+def alloc_leaves(t, depth=0):
+    """the allocation results a pointer term may denote: {fresh} for a single allocation, the union over the
+    branches of a γ-join of allocations made on exclusive paths - or None when it is anything else"""
+    if not isinstance(t, Lin) or depth > 6:
+        return None
+    a = t.single_atom()
+    if a is None:
+        return None
+    if a[0] == "fresh" and len(a) > 2 and a[2] == "alloc":
+        return frozenset([a])
+    if a[0] == "gamma":
+        x, y = alloc_leaves(a[2], depth + 1), alloc_leaves(a[3], depth + 1)
+        if x is not None and y is not None:
+            return x | y
+    return None
+
+
 def discover_owners(tu):
     """[Owner] for the vector type of this TU, from the w_ctor summary"""
     fn = "w_ctor"
@@ -28,10 +45,10 @@ def discover_owners(tu):
         off = (addr - mem).const()
         if off is None or size != 8 or not isinstance(v, Lin):
             continue
-        a = v.single_atom()
-        if a is not None and a[0] == "fresh" and len(a) > 2 and a[2] == "alloc":
-            by_fresh.setdefault(a, []).append(off)
-    begin = tu.obs(fn, "post", "begin").single_atom()
+        lv = alloc_leaves(v)
+        if lv:
+            by_fresh.setdefault(lv, []).append(off)
+    begin = alloc_leaves(tu.obs(fn, "post", "begin"))
     owners = []
     for fr, offs in by_fresh.items():
         owners.append(Owner(min(offs), "data" if fr == begin else "table"))
@@ -53,17 +70,21 @@ def ctor_alloc_relation(ck, owners, rule):
     mem = tu.arg(fn, "mem")
     for o in owners:
         v = sm.final.get((mem + o.off, 8))
-        e = allocs.get(v.single_atom()) if v is not None else None
-        if e is None:
+        lv = alloc_leaves(v) if v is not None else None
+        evs = [allocs[a] for a in (lv or ()) if a in allocs]
+        if not evs:
             raise AnalysisBroken("%s: owner field +%d not set from an allocation in the constructor" % (tu.cfg, o.off))
         want = tu.obs(fn, "post", "mc") if o.kind == "data" else tu.obs(fn, "post", "cap").scale(8)
-        f0 = Facts()
-        if tu.meta[fn].get("element"):
-            assumed_alignment(sm, f0)
-        ck.eq(rule + "-ctor-bytes", fn, "bytes requested for the %s block == %s" % (o.kind, "memory_consumption()" if o.kind == "data" else "8*capacity()"),
-              e.args[1], want, f0)
-        if tu.ak.stateful and not tu.ak.always_equal:
-            ck.eq(rule + "-ctor-alloc", fn, "allocator used for the %s block == get_allocator()" % o.kind, e.args[0], tu.obs(fn, "post", "id"), Facts())
+        for e in evs:
+            # (several allocation sites on exclusive paths: each under its own guard)
+            from .logic import simplify_cond
+            f0 = Facts([simplify_cond(e.guard, Facts())] if e.guard != TRUE else [])
+            if tu.meta[fn].get("element"):
+                assumed_alignment(sm, f0)
+            ck.eq(rule + "-ctor-bytes", fn, "bytes requested for the %s block == %s" % (o.kind, "memory_consumption()" if o.kind == "data" else "8*capacity()"),
+                  e.args[1], want, f0)
+            if tu.ak.stateful and not tu.ak.always_equal:
+                ck.eq(rule + "-ctor-alloc", fn, "allocator used for the %s block == get_allocator()" % o.kind, e.args[0], tu.obs(fn, "post", "id"), Facts())
 
 
 # the witnesses and the roles of their container arguments
